@@ -183,6 +183,27 @@ Theorem C05_concat : forall raws ts ix c out fulls,
 Proof. exact concat_correct. Qed.
 Print Assumptions C05_concat.
 
+(* C05_concat_shape_dtype (full strength): the .shape and .dtype properties of the concatenated indexer are the shape and
+   dtype of c[:] (through the whole transform chain), and len(c) = shape[0] is the sum of the lengths of ALL parts'
+   first-stage results - parts without rows are dropped at construction and contribute nothing, a part that only
+   selects nothing on a LATER axis keeps its rows. *)
+Theorem C05_concat_shape_dtype : forall raws ts c out fulls s d,
+  Forall raw_ok raws ->
+  mapM (fun r => oindex_keep (mk_nd (r_shape r) (r_ds r)) (r_keep r)) raws = Ok fulls ->
+  c_mk raws ts = Ok c -> c_getitem c [] = Ok out ->
+  c_shape c = Ok s -> c_dtype c = Ok d ->
+  nd_shape (a_nd out) = s /\ a_dtype out = d /\ hd 0 s = zsum (map (fun a => hd 0 (nd_shape a)) fulls).
+Proof. exact concat_shape_dtype. Qed.
+Print Assumptions C05_concat_shape_dtype.
+
+Theorem C05_concat_shape_dtype_example :
+  let raws := [mk_craw [3; 2] [] (arange [3; 2] 0) 0; mk_craw [0; 2] [] (arange [0; 2] 1) 0; mk_craw [4; 2] [ASlice None None (Some 2)] (arange [4; 2] 1) 0] in
+  let ts := [TMap 2 1 (Some 1); TAdd; TMap 1 0 (Some 4)] in
+  exists c out, c_mk raws ts = Ok c /\ c_getitem c [] = Ok out /\ c_shape c = Ok [5; 2; 1] /\ c_dtype c = Ok 4
+    /\ nd_shape (a_nd out) = [5; 2; 1] /\ a_dtype out = 4.
+Proof. exact concat_shape_dtype_example. Qed.
+Print Assumptions C05_concat_shape_dtype_example.
+
 (* what katdal's _initial_dtype guarantees when it accepts the dtypes of the kept parts: every part's dtype can be
    stored in it without changing a value, and it is numpy's promotion (the dtype of np.concatenate) of them *)
 Theorem C05_common_dtype : forall l dt, common_dtype l = Ok dt ->
